@@ -322,7 +322,13 @@ impl Storage {
             return None;
         }
         if let Ok(result) = self.io_interface.read_value(file_path.as_str()).await {
-            let mut contents = String::from_utf8(result).unwrap();
+            let mut contents = match String::from_utf8(result) {
+                Ok(contents) => contents,
+                Err(error) => {
+                    error!("checkpoint file : {} is not text : {:?}", file_path, error);
+                    return None;
+                }
+            };
             contents = contents.trim_end_matches('\r').to_string();
             let lines: Vec<&str> = contents.split('\n').collect();
             let mut keys: Vec<SaitoUTXOSetKey> = vec![];
